@@ -5,9 +5,11 @@ import (
 	"encoding/json"
 	"fmt"
 	"os"
+	"path/filepath"
 	"slices"
 	"sort"
 	"strings"
+	"time"
 
 	"github.com/cloudflare/pint/internal/checks"
 	"github.com/cloudflare/pint/internal/config"
@@ -117,7 +119,7 @@ func c08Eval(r *hx.Run, cs c08Case) {
 		cfgText += fmt.Sprintf("\nchecks {\n  disabled = [%q]\n}\n", cs.Name)
 	case "rule-disable":
 		cfgText += fmt.Sprintf("\nrule {\n  disable = [%q]\n}\n", cs.Name)
-	case "enabled-flag":
+	case "enabled-flag", "enabled-flag-pattern":
 		o.Enabled = []string{cs.Name}
 	case "enabled-config":
 		cfgText += fmt.Sprintf("\nchecks {\n  enabled = [%q]\n}\n", cs.Name)
@@ -147,6 +149,15 @@ func c08Eval(r *hx.Run, cs c08Case) {
 			if rep != cs.Name {
 				want = append(want, k)
 			}
+		case "enabled-flag-pattern":
+			// --enabled VALUE: the checks whose whole name matches VALUE as a regexp (or equals it), like --disabled
+			hit := rep == cs.Name
+			if re, err := regexp.Compile("^(?:" + cs.Name + ")$"); err == nil && re.MatchString(rep) {
+				hit = true
+			}
+			if hit || rep == "yaml/parse" || rep == "ignore/file" || strings.HasPrefix(rep, "pint/") {
+				want = append(want, k)
+			}
 		case "enabled-flag", "enabled-config":
 			if rep == cs.Name || rep == "yaml/parse" || rep == "ignore/file" || strings.HasPrefix(rep, "pint/") {
 				want = append(want, k)
@@ -159,6 +170,21 @@ func c08Eval(r *hx.Run, cs c08Case) {
 		}
 	}
 	got, perr := c08Reports(cfgText, cs.File, o, r)
+	if cs.Switch == "enabled-flag-pattern" {
+		// a value that names no check at all must be refused, not obeyed (it would switch every check off)
+		names := false
+		re, rerr := regexp.Compile("^(?:" + cs.Name + ")$")
+		for _, n := range checks.CheckNames {
+			names = names || n == cs.Name || (rerr == nil && re.MatchString(n))
+		}
+		r.Case("enabled-pattern"+cs.Name, true)
+		if !names {
+			if perr == "" {
+				r.Violate(hx.Violation{Class: "enabled-flag-value-names-no-check", Input: cs, Observed: map[string]any{"reports": len(got)}, Expected: "an error: no check is called " + cs.Name})
+			}
+			return
+		}
+	}
 	if perr != "" {
 		r.Violate(hx.Violation{Class: "run-failed:" + cs.Switch, Input: cs, Observed: tail(perr, 1200)})
 		return
@@ -286,7 +312,11 @@ func runC08(r *hx.Run, replay string) {
 	for _, pat := range []string{"alerts/count|for", "rule/(for|label)", "promql/.*", ".*/for", "alerts/template|", "a(", "[", "rule/for|", "(alerts|rule)/for", "promql/series(prom)"} {
 		c08Eval(r, c08Case{Config: c08AllKinds, File: c08Rules, Switch: "disabled-flag-pattern", Name: pat})
 	}
+	for _, pat := range []string{"alerts/count|for", "rule/(for|label)", "promql/.*", ".*/for", "rule/fro", "a(", "promql/series(prom)", "(alerts|rule)/for", "rule/.*"} {
+		c08Eval(r, c08Case{Config: c08AllKinds, File: c08Rules, Switch: "enabled-flag-pattern", Name: pat})
+	}
 	c08Instances(r)
+	c08EnabledFlagBinary(r)
 	c08Eval(r, c08Case{Config: c08AllKinds, File: c08Rules, Switch: "offline"})
 	r.Sample(map[string]any{"config": "all-kinds", "names": len(checks.CheckNames)})
 	// random inputs: all-kinds config, random files; also the GetChecksForEntry correspondence under random switches
@@ -334,5 +364,56 @@ func runC08(r *hx.Run, replay string) {
 			}
 		}
 		env.Close()
+	}
+}
+
+// c08EnabledFlagBinary: the --enabled flag of the built binary (cmd/pint/main.go is outside the in-process pipeline):
+// a pattern enables what it matches, a value that names no check is refused
+func c08EnabledFlagBinary(r *hx.Run) {
+	if os.Getenv("PINT_BIN") == "" {
+		return
+	}
+	dir, err := os.MkdirTemp("", "c08e-")
+	if err != nil {
+		panic(err)
+	}
+	defer os.RemoveAll(dir)
+	_ = os.WriteFile(filepath.Join(dir, ".pint.hcl"), []byte("rule {\n  for {\n    severity = \"bug\"\n    min = \"5m\"\n  }\n  name \"nomatchzz\" {\n    severity = \"bug\"\n  }\n}\n"), 0o644)
+	_ = os.WriteFile(filepath.Join(dir, "r.yml"), []byte("groups:\n- name: g\n  rules:\n  - alert: A\n    expr: up == 0\n    for: 1m\n"), 0o644)
+	run := func(args ...string) (int, string) {
+		res := hx.RunCmd(dir, 60*time.Second, nil, hx.PintBin(), append([]string{"--offline", "--no-color", "-l", "error"}, args...)...)
+		return res.Exit, res.Stdout + res.Stderr
+	}
+	_, base := run("lint", "r.yml")
+	if !strings.Contains(base, "(rule/for)") || !strings.Contains(base, "(rule/name)") {
+		r.Note("c08EnabledFlagBinary: baseline does not report rule/for and rule/name: %s", tail(base, 300))
+		return
+	}
+	for _, c := range []struct {
+		value   string
+		reports []string // reporters that must still be reported
+		refused bool
+	}{
+		{"rule/for", []string{"(rule/for)"}, false},
+		{"rule/.*", []string{"(rule/for)", "(rule/name)"}, false},
+		{"rule/(for|name)", []string{"(rule/for)", "(rule/name)"}, false},
+		{"rule/fro", nil, true},
+		{"promql/series(prom)", nil, true},
+	} {
+		exit, out := run("--enabled", c.value, "lint", "r.yml")
+		r.Case("enabled-binary"+c.value, true)
+		r.Count("enabled-flag-binary")
+		ok := true
+		for _, rep := range c.reports {
+			ok = ok && strings.Contains(out, rep)
+		}
+		if c.refused {
+			ok = exit != 0 && strings.Contains(out, "unknown check name")
+		}
+		if !ok {
+			r.Violate(hx.Violation{Class: "enabled-flag-binary", Input: map[string]any{"--enabled": c.value}, Observed: map[string]any{"exit": exit, "output": tail(out, 600)},
+				Expected: map[string]any{"reported": c.reports, "refused": c.refused}})
+			return
+		}
 	}
 }
